@@ -46,6 +46,9 @@ impl Eq for CloseChannelEndResult {}
 //@item core/src/channel_end.rs enum ChannelEndWithCapacity attr=derive(Clone,Copy)
 //@item core/src/message/create_channel.rs struct CreateChannel
 //@item core/src/message/create_channel_reply.rs struct CreateChannelReply
+//@item core/src/message/claim_channel_end.rs struct ClaimChannelEnd
+//@item core/src/message/claim_channel_end_reply.rs struct ClaimChannelEndReply
+//@item core/src/message/channel_end_claimed.rs struct ChannelEndClaimed
 
 // the messages the handlers send; VersionedMessage::new / with_version take `impl Into<Message>` in the real code
 // protocol minor version that introduced each message kind sent by these handlers (0 = base protocol 1.14)
@@ -55,6 +58,18 @@ impl IntoMessage for ItemReceived { open spec fn min_minor() -> u32 { 0 } closed
 impl IntoMessage for AddChannelCapacity { open spec fn min_minor() -> u32 { 0 } closed spec fn allowed_for(&self, receiver: &ConnectionState) -> bool { receiver.senders@.contains(self.cookie) } }
 impl IntoMessage for ChannelEndClosed { open spec fn min_minor() -> u32 { 0 } open spec fn allowed_for(&self, receiver: &ConnectionState) -> bool { true } }
 impl IntoMessage for CloseChannelEndReply { open spec fn min_minor() -> u32 { 0 } open spec fn allowed_for(&self, receiver: &ConnectionState) -> bool { true } }
+impl IntoMessage for ClaimChannelEndReply { open spec fn min_minor() -> u32 { 0 } open spec fn allowed_for(&self, receiver: &ConnectionState) -> bool { true } }
+// ROUTING (C05): "the peer is told when the other end is claimed": the notification goes to the connection that holds the
+// OTHER end of that channel
+impl IntoMessage for ChannelEndClaimed {
+    open spec fn min_minor() -> u32 { 0 }
+    closed spec fn allowed_for(&self, receiver: &ConnectionState) -> bool {
+        match self.end {
+            ChannelEndWithCapacity::Sender => receiver.receivers@.contains(self.cookie),
+            ChannelEndWithCapacity::Receiver(_) => receiver.senders@.contains(self.cookie),
+        }
+    }
+}
 impl IntoMessage for CreateChannelReply { open spec fn min_minor() -> u32 { 0 } open spec fn allowed_for(&self, receiver: &ConnectionState) -> bool { true } }
 
 // random UUIDv4 cookie: freshness w.r.t. live channels is ASSUMED at the creation site (see create_channel)
@@ -74,6 +89,8 @@ impl ChannelCookie {
 impl Channel {
     //@fn-from broker_channel broker/src/broker/channel.rs Channel::with_claimed_sender
     //@fn-from broker_channel broker/src/broker/channel.rs Channel::with_claimed_receiver
+    //@fn-from broker_channel broker/src/broker/channel.rs Channel::claim_sender
+    //@fn-from broker_channel broker/src/broker/channel.rs Channel::claim_receiver
     //@fn-from broker_channel broker/src/broker/channel.rs Channel::check_close
     //@fn-from broker_channel broker/src/broker/channel.rs Channel::close
     //@fn-from broker_channel broker/src/broker/channel.rs Channel::send_item
@@ -106,7 +123,58 @@ impl ConnectionState {
 impl Broker {
     //@include _shared/chan_inv.rs
     //@include _shared/statistics_specs.rs
-    //@include _shared/remove_channel_end_contract.rs
+    // remove_channel_end: the closure in `owner.and_then(|conn_id| self.conns.get_mut(conn_id))` is inlined by the extractor (N11);
+    // preconditions are what every call site establishes
+    //@fn broker/src/broker.rs Broker::remove_channel_end option-map
+        requires
+            old(self).chan_inv(),
+            old(self).channels@.contains_key(cookie) ==> {
+                let st = old(self).channels@[cookie].end_state(end);
+                &&& !(st is Closed)
+                // `owner` names the connection holding the end, or None when nobody holds it
+                &&& (owner is Some ==> st.claimed_by(owner->Some_0.id()))
+                &&& (owner is None ==> st is Unclaimed)
+            },
+        ensures
+            final(self).chan_inv(),
+            final(self).chan_same_rest(old(self)),
+            final(self).conns@.dom() == old(self).conns@.dom(),
+            // only the owner's own list of ends is touched, and only the deferred-removal queue of the loop state
+            forall|k: ConnectionId| #![trigger final(self).conns@[k]] old(self).conns@.contains_key(k) ==> {
+                if owner is Some && k == *owner->Some_0 && old(self).channels@.contains_key(cookie) {
+                    match end {
+                        ChannelEnd::Sender => final(self).conns@[k].senders@ == old(self).conns@[k].senders@.remove(cookie)
+                            && final(self).conns@[k].rest_eq(&old(self).conns@[k], 6),
+                        ChannelEnd::Receiver => final(self).conns@[k].receivers@ == old(self).conns@[k].receivers@.remove(cookie)
+                            && final(self).conns@[k].rest_eq(&old(self).conns@[k], 7),
+                    }
+                } else {
+                    final(self).conns@[k] == old(self).conns@[k]
+                }
+            },
+            final(state).only_remove_conns_changed(old(state)),
+            // ends are only closed and channels only dropped: claimed ends keep belonging to connected clients
+            old(self).chan_owners_connected() ==> final(self).chan_owners_connected(),
+            // statistics: the channel counter is decremented exactly when the channel is dropped from the table
+            old(self).stat_channels_ok() ==> final(self).stat_channels_ok(),
+            final(self).statistics.num_connections == old(self).statistics.num_connections,
+            final(self).statistics.num_objects == old(self).statistics.num_objects,
+            final(self).statistics.num_services == old(self).statistics.num_services,
+            final(self).statistics.num_bus_listeners == old(self).statistics.num_bus_listeners,
+            !old(self).channels@.contains_key(cookie) ==> final(self).channels@ == old(self).channels@
+                && final(self).conns@ == old(self).conns@,
+            old(self).channels@.contains_key(cookie) ==> {
+                let other = old(self).channels@[cookie].other_state(end);
+                let keep = other is Claimed && exists|k: ConnectionId| old(self).conns@.contains_key(k) && k.id() == other.owner_id();
+                &&& forall|c: ChannelCookie| c != cookie ==> final(self).channels@.contains_key(c) == old(self).channels@.contains_key(c)
+                &&& forall|c: ChannelCookie| c != cookie && old(self).channels@.contains_key(c) ==> final(self).channels@[c] == old(self).channels@[c]
+                &&& final(self).channels@.contains_key(cookie) == keep
+                &&& keep ==> {
+                        &&& final(self).channels@[cookie].end_state(end) is Closed
+                        &&& final(self).channels@[cookie].other_state(end) == other
+                    }
+            },
+    //@end
 
     //@fn broker/src/broker.rs Broker::close_channel_end
         requires
@@ -279,6 +347,46 @@ impl Broker {
     //@ghost after `let cookie = ChannelCookie::new_v4();`
         // ASSUMPTION (random UUIDv4): the new cookie is not the cookie of a live channel
         proof { assume(!self.channels@.contains_key(cookie)); }
+    //@end
+
+    // ---- claim_channel_end ------------------------------------------------------------------------------------------------
+    //@fn broker/src/broker.rs Broker::claim_channel_end result-map
+        requires
+            old(self).chan_inv(), old(self).chan_owners_connected(),
+        ensures
+            final(self).chan_inv(), final(self).chan_owners_connected(),
+            final(self).chan_same_rest(old(self)),
+            final(self).conns@.dom() == old(self).conns@.dom(),
+            final(self).channels@.dom() == old(self).channels@.dom(),
+            forall|c: ChannelCookie| #![trigger final(self).channels@[c]] c != req.cookie && old(self).channels@.contains_key(c) ==> final(self).channels@[c] == old(self).channels@[c],
+            forall|k: ConnectionId| #![trigger final(self).conns@[k]] k != *id && old(self).conns@.contains_key(k) ==> final(self).conns@[k] == old(self).conns@[k],
+            // an end can be claimed once, and only while it is unclaimed: in every other case (unknown requester or channel, end
+            // already claimed or closed) nothing changes
+            !(old(self).conns@.contains_key(*id) && old(self).channels@.contains_key(req.cookie)
+                && (match req.end {
+                        ChannelEndWithCapacity::Sender => old(self).channels@[req.cookie].sender is Unclaimed,
+                        ChannelEndWithCapacity::Receiver(_) => old(self).channels@[req.cookie].receiver is Unclaimed,
+                    })) ==> final(self).channels@ == old(self).channels@ && final(self).conns@ == old(self).conns@,
+            // a successful claim: that end now belongs to the requester (receiver: with the capacity it announced; sender: with
+            // the credit the receiver granted), the other end is untouched, and the requester lists the end
+            (old(self).conns@.contains_key(*id) && old(self).channels@.contains_key(req.cookie)) ==> match req.end {
+                ChannelEndWithCapacity::Sender => old(self).channels@[req.cookie].sender is Unclaimed ==> {
+                    &&& final(self).channels@[req.cookie].sender.claimed_by(id.id())
+                    &&& final(self).channels@[req.cookie].sender.cap() == old(self).channels@[req.cookie].receiver.cap()
+                    &&& final(self).channels@[req.cookie].receiver == old(self).channels@[req.cookie].receiver
+                    &&& final(self).conns@[*id].senders@ == old(self).conns@[*id].senders@.insert(req.cookie)
+                    &&& final(self).conns@[*id].rest_eq(&old(self).conns@[*id], 6)
+                },
+                ChannelEndWithCapacity::Receiver(capacity) => old(self).channels@[req.cookie].receiver is Unclaimed ==> {
+                    &&& final(self).channels@[req.cookie].receiver.claimed_by(id.id())
+                    &&& final(self).channels@[req.cookie].receiver.cap() == capacity
+                    &&& final(self).channels@[req.cookie].sender.claimed_by(old(self).channels@[req.cookie].sender.owner_id())
+                    &&& final(self).conns@[*id].receivers@ == old(self).conns@[*id].receivers@.insert(req.cookie)
+                    &&& final(self).conns@[*id].rest_eq(&old(self).conns@[*id], 7)
+                },
+            },
+            old(self).stat_channels_ok() ==> final(self).stat_channels_ok(),
+            final(self).stat_same(old(self)),
     //@end
 }
 
